@@ -470,16 +470,32 @@ func (c *CastExpression) SQL() string {
 	}
 	sb := getBuilder()
 	defer putBuilder(sb)
-	for range types {
-		sb.WriteString("CAST(")
+	for _, t := range types {
+		if castNeedsOperator(t) {
+			sb.WriteByte('(')
+		} else {
+			sb.WriteString("CAST(")
+		}
 	}
 	sb.WriteString(exprSQL(cur.Expr))
 	for i := len(types) - 1; i >= 0; i-- {
+		if castNeedsOperator(types[i]) {
+			sb.WriteString(")::")
+			sb.WriteString(types[i])
+			continue
+		}
 		sb.WriteString(" AS ")
 		sb.WriteString(types[i])
 		sb.WriteByte(')')
 	}
 	return sb.String()
+}
+
+// castNeedsOperator reports whether a cast to the type can only be written with
+// the :: operator: the CAST(... AS type) grammar accepts neither array types nor
+// INTERVAL, which expr::type does.
+func castNeedsOperator(typ string) bool {
+	return strings.Contains(typ, "[") || strings.EqualFold(typ, "INTERVAL")
 }
 
 func (c *CaseExpression) SQL() string {
